@@ -52,6 +52,82 @@ func c11WindowFillStreams(cfg *Cfg) []flushedStream {
 	if cfg.Thorough {
 		fills = []int{65536, 98304} // the window is full again every 32 KiB after the first time
 	}
+	build := func(F, a, e, kind int, flushed bool, container string, align int) flushedStream {
+		odd := align%2 == 1
+		leadLen := F - a
+		if odd {
+			leadLen-- // the aligning block below carries one literal
+		}
+		lead := g.wfPrefix(leadLen)
+		w := &synth.BitWriter{}
+		if container == "zlib" {
+			w.Byte(0x78)
+			w.Byte(0x9c)
+		}
+		for h := lead; len(h) > 0; {
+			n := len(h)
+			if n > 65535 {
+				n = 65535
+			}
+			synth.BuildTo(w, synth.Block{Type: 0, Stored: h[:n]})
+			h = h[n:]
+		}
+		at := (w.Len() + 7) / 8
+		data := append([]byte{}, lead...)
+		// bit alignment of everything behind: empty fixed blocks are 10 bits (shift 2), a fixed block with one 9-bit
+		// literal is 19 bits (shift 3)
+		shift := align
+		if odd {
+			synth.BuildTo(w, synth.Block{Type: 1, Syms: []synth.Sym{{Kind: synth.SymLit, Lit: 200}}})
+			data = append(data, 200)
+			shift = (align + 8 - 3) % 8
+		}
+		for i := 0; i < shift/2; i++ {
+			synth.BuildTo(w, synth.Block{Type: 1})
+		}
+		n := a + e
+		blk := synth.Block{Final: !flushed}
+		switch {
+		case kind == 0:
+			body := bytes.Repeat([]byte{'s'}, n)
+			blk.Type, blk.Stored = 0, body
+			data = append(data, body...)
+		case kind == 1 || n < 3:
+			blk.Type = 1
+			for i := 0; i < n; i++ {
+				blk.Syms = append(blk.Syms, synth.Sym{Kind: synth.SymLit, Lit: 'a' + i%3})
+				data = append(data, byte('a'+i%3))
+			}
+		default:
+			blk.Type = 1
+			blk.Syms = append(blk.Syms, synth.Sym{Kind: synth.SymMatch, Len: n, Dist: 17})
+			for i := 0; i < n; i++ {
+				data = append(data, data[len(data)-17])
+			}
+		}
+		synth.BuildTo(w, blk)
+		fs := flushedStream{kind: RK{Kind: container}, chunkAfter: at - 300}
+		if flushed {
+			synth.BuildTo(w, synth.Block{Type: 0}) // sync marker
+			fs.points = append(fs.points, (w.Len()+7)/8)
+			fs.datas = append(fs.datas, len(data))
+			tail := synth.Block{Final: true, Type: 1}
+			for i := 0; i < 10; i++ {
+				tail.Syms = append(tail.Syms, synth.Sym{Kind: synth.SymLit, Lit: 'z'})
+				data = append(data, 'z')
+			}
+			synth.BuildTo(w, tail)
+		}
+		stream := w.Bytes()
+		if container == "zlib" {
+			stream = append(stream, zlibTrailer(data)...)
+		}
+		fs.points = append(fs.points, len(stream))
+		fs.datas = append(fs.datas, len(data))
+		fs.bytes, fs.data = stream, data
+		fs.name = fmt.Sprintf("synth-%s[window-fill: stored lead to %d-%d, bit alignment %d, then %s block of %d bytes, flushed=%v]", container, F, a, align, []string{"stored", "fixed-literals", "fixed-match"}[kind], n, flushed)
+		return fs
+	}
 	for _, F := range fills {
 		for _, a := range []int{0, 1, 3} {
 			for _, e := range []int{0, 1, 2, 3, 4, 9} {
@@ -61,64 +137,14 @@ func c11WindowFillStreams(cfg *Cfg) []flushedStream {
 							if container == "zlib" && (kind != 0 || a != 0) {
 								continue
 							}
-							lead := g.wfPrefix(F - a)
-							w := &synth.BitWriter{}
-							if container == "zlib" {
-								w.Byte(0x78)
-								w.Byte(0x9c)
+							out = append(out, build(F, a, e, kind, flushed, container, 0))
+						}
+						// every bit alignment of the block that crosses the fill point (what is left in the bit buffer at
+						// the pause may be less than a byte: an end-of-block code alone)
+						if kind != 0 && e <= 3 && (a == 0 || a == 3 && e <= 1) {
+							for align := 1; align < 8; align++ {
+								out = append(out, build(F, a, e, kind, flushed, "flate", align))
 							}
-							for h := lead; len(h) > 0; {
-								n := len(h)
-								if n > 65535 {
-									n = 65535
-								}
-								synth.BuildTo(w, synth.Block{Type: 0, Stored: h[:n]})
-								h = h[n:]
-							}
-							at := (w.Len() + 7) / 8
-							data := append([]byte{}, lead...)
-							n := a + e
-							blk := synth.Block{Final: !flushed}
-							switch {
-							case kind == 0:
-								body := bytes.Repeat([]byte{'s'}, n)
-								blk.Type, blk.Stored = 0, body
-								data = append(data, body...)
-							case kind == 1 || n < 3:
-								blk.Type = 1
-								for i := 0; i < n; i++ {
-									blk.Syms = append(blk.Syms, synth.Sym{Kind: synth.SymLit, Lit: 'a' + i%3})
-									data = append(data, byte('a'+i%3))
-								}
-							default:
-								blk.Type = 1
-								blk.Syms = append(blk.Syms, synth.Sym{Kind: synth.SymMatch, Len: n, Dist: 17})
-								for i := 0; i < n; i++ {
-									data = append(data, data[len(data)-17])
-								}
-							}
-							synth.BuildTo(w, blk)
-							fs := flushedStream{kind: RK{Kind: container}, chunkAfter: at - 300}
-							if flushed {
-								synth.BuildTo(w, synth.Block{Type: 0}) // sync marker
-								fs.points = append(fs.points, (w.Len()+7)/8)
-								fs.datas = append(fs.datas, len(data))
-								tail := synth.Block{Final: true, Type: 1}
-								for i := 0; i < 10; i++ {
-									tail.Syms = append(tail.Syms, synth.Sym{Kind: synth.SymLit, Lit: 'z'})
-									data = append(data, 'z')
-								}
-								synth.BuildTo(w, tail)
-							}
-							stream := w.Bytes()
-							if container == "zlib" {
-								stream = append(stream, zlibTrailer(data)...)
-							}
-							fs.points = append(fs.points, len(stream))
-							fs.datas = append(fs.datas, len(data))
-							fs.bytes, fs.data = stream, data
-							fs.name = fmt.Sprintf("synth-%s[window-fill: stored lead to %d-%d, then %s block of %d bytes, flushed=%v]", container, F, a, []string{"stored", "fixed-literals", "fixed-match"}[kind], n, flushed)
-							out = append(out, fs)
 						}
 					}
 				}
